@@ -5,8 +5,8 @@ T = "Jelly."
 
 REGISTRY: dict[str, dict] = {
     "C05": dict(
-        modules=["C05", "Tables"],
-        theorems=[T + "C05_mirror_history", T + "C05_prefix_disabled"],
+        modules=["C05", "Tables", "C07Grouped"],
+        theorems=[T + "C05_mirror_history", T + "C05_prefix_disabled", T + "C05_term_level_iris"],
         table_theorems=[T + "tables_constants"],
         rule="LOOKUP: all key histories up to a length over alphabets of size+2 for sizes 1..3 (exhaustive up to the "
              "stated length), random long histories for sizes 0..8, 16, 4096; TermEncoder→Decoder histories. "
@@ -145,8 +145,8 @@ REGISTRY: dict[str, dict] = {
              "configuration with >= 2 statements.",
     ),
     "C07": dict(
-        modules=["C07", "C06"],
-        theorems=[T + "C07_frames_eq_rows", T + "C07_repartition", T + "C07_grouped_one_per_frame",
+        modules=["C07", "C06", "C07Grouped"],
+        theorems=[T + "C07_grouped_triples_valid", T + "C07_grouped_quads_valid", T + "C07_frames_eq_rows", T + "C07_repartition", T + "C07_grouped_one_per_frame",
                   T + "C07_grouped_concat_eq_flat", T + "C07_one_frame_per_nonempty_sink", T + "C06_rows_independent_of_flow"],
         rule="PARSE on reference-encoder row sequences re-cut into frames at EVERY single position and at random multi-cuts "
              "with empty frames and metadata: flat(recut) == flat(one frame); grouped: one sink per frame, concatenation == "
